@@ -88,6 +88,63 @@ def run_scenario(ctx, name, driver, lines, P, K, timeout=120):
     ctx.sample("%s P=%d: %s" % (name, P, lines[0][:300]))
 
 
+def trace_conformance(ctx, P, nfam, seeds):
+    """Back-to-back construction of nfam standard packages (same tag 12345): the per-rank MPI call sequence recorded by
+    the PMPI layer must be a run of the protocol program [Barrier; Phase 12345 dests]* (extracted, verified trace_ok)."""
+    rng = ctx.rng
+    shim = buildlib.build_shim(); exe = buildlib.build_driver("drv_trace")
+    N = rng.choice([P + 2, 2 * P + 3, 3 * P + 5])
+    fc = commgen.rand_partition(rng, P, N)
+    fams = []
+    for k in range(nfam):
+        cols = []
+        for p in range(P):
+            cand = [c for c in range(N) if not (fc[p] <= c < fc[p + 1])]
+            cols.append(sorted(rng.sample(cand, rng.randint(0, len(cand)))) if cand else [])
+        fams.append(cols)
+    toks = ["tr", "trace", P] + fc + [nfam]
+    for cols in fams:
+        for cs in cols: toks += [len(cs)] + cs
+    line = " ".join(str(x) for x in toks)
+    cf = fw.write_cases(ctx, "c05_trace_%d.cases" % P, [line])
+    for seed in seeds:
+        tp = os.path.join(ctx.tmp, "trace_%d_%d" % (P, seed))
+        env = {"LD_PRELOAD": shim, "VERIF_SCHED_SEED": str(seed), "VERIF_SCHED_TRACE": tp}
+        rc, out, err = buildlib.run_driver(exe, cf, nprocs=P, timeout=60, extra_env=env)
+        ctx.evaluations += 1; ctx.nontrivial.add("trace/P%d/seed%d/%s" % (P, seed, line[:40]))
+        if rc != 0:
+            ctx.signal("O", "trace:deadlock_or_crash", "package construction did not terminate / crashed under schedule seed %d rc=%s" % (seed, rc),
+                       case=line, extra=dict(schedule_seed=seed)); continue
+        mtoks = ["tr", "tracechk", P] + fc + [nfam]
+        for cols in fams:
+            for cs in cols: mtoks += [len(cs)] + cs
+        bad = None
+        for r in range(P):
+            ev = []; inside = 0
+            for l in open("%s.%d" % (tp, r)):
+                f = l.split()
+                if f[0] == "barrier": inside += 1; continue
+                if inside != 1: continue
+                if f[0] == "allreduce": ev.append("B")
+                elif f[0] == "isend": ev += ["S", f[1], f[2]]
+                elif f[0] == "probe_any": ev += ["R", f[1], f[2]]
+                elif f[0] in ("recv", "irecv"): pass          # the specific-source receive that follows each probe
+                else: bad = "unexpected call %s in package construction (rank %d)" % (f[0], r)
+            n = sum(1 for x in ev if x in ("B", "S", "R"))
+            mtoks += [n] + ev
+        if bad:
+            ctx.signal("K", "trace:unexpected_call", bad, case=line); continue
+        mf = fw.write_cases(ctx, "c05_tracechk_%d_%d.cases" % (P, seed), [" ".join(str(x) for x in mtoks)])
+        rcm, mout, _, merr = fw.run_model(ctx, mf)
+        res = dict((k, v) for k, v in mout.get("tr", []))
+        ctx.compared += 1
+        tr = res.get("TRACE")
+        if not tr or tr[1] != "1" or "0" in tr[5:]:
+            ctx.signal("K", "trace:nonconforming", "observed MPI call sequence is not a run of the protocol program: %s" % (tr,),
+                       case=line, extra=dict(schedule_seed=seed, model_case=" ".join(str(x) for x in mtoks)[:2000]))
+    ctx.count("trace_scenarios_P%d" % P)
+
+
 def run(ctx):
     ctx.rule = ("scenarios (package construction back to back incl. derived and node-aware packages, forward/reverse exchanges, "
                 "distributed products, plus the corpus scenarios of the AMG families) x K seeded schedules of the PMPI layer; "
@@ -112,6 +169,8 @@ def run(ctx):
             pc.append(" ".join(str(x) for x in [c["cid"], "pspmv", kind, rng.choice(["coo", "csr", "csc"]), int(tap), ppn]
                                + C02par.parlit_tokens(c, True) + vt))
         run_scenario(ctx, "parmat", "drv_parmat", pc, P, K)
+    for P in ctx.scale([3, 4], [2, 3, 4, 5, 6, 8]):
+        trace_conformance(ctx, P, rng.choice([2, 3]), [0] + [ctx.seed * 77 + k + 1 for k in range(ctx.scale(2, 10))])
     # corpus scenarios contributed by the AMG families: corpus/C05/<driver>.<P>.cases
     cdir = os.path.join(fw.VERIF, "corpus", "C05")
     if os.path.isdir(cdir):
